@@ -716,6 +716,8 @@ class Interp:
             return "known", list(it)
         if isinstance(it, (ListV, SetV)):
             return "known", list(it.items)
+        if isinstance(it, frozenset):
+            return "known", sorted(it, key=repr)
         if isinstance(it, DictV):
             return "known", list(it.items.keys())
         if isinstance(it, str):
@@ -869,7 +871,7 @@ class Interp:
 
     def hashable(self, k, node):
         k = self.force(k, node)
-        if isinstance(k, (str, int, bool, Fraction, bytes, tuple, type(None), SymStr, Sym, Obj, ClassV, Ext, BuiltinV, FuncV)):
+        if isinstance(k, (str, int, bool, Fraction, bytes, tuple, type(None), frozenset, SymStr, Sym, Obj, ClassV, Ext, BuiltinV, FuncV)):
             return k
         self.unsupported(f"dict key {k!r}", node)
 
@@ -1041,6 +1043,8 @@ class Interp:
             return False
         if isinstance(a, (bool, str, int)) and isinstance(b, (bool, str, int)):
             return type(a) is type(b) and a == b
+        if isinstance(a, frozenset) or isinstance(b, frozenset):
+            return a is b
         if isinstance(a, Sym) and isinstance(b, Sym):
             return a == b
         if isinstance(a, (Sym,)) or isinstance(b, (Sym,)):
@@ -1060,6 +1064,8 @@ class Interp:
             return a is b
         if a is None or b is None:
             return self.identical(a, b, node)
+        if isinstance(a, frozenset) or isinstance(b, frozenset):
+            return isinstance(a, frozenset) and isinstance(b, frozenset) and a == b
         if isinstance(a, (str, SymStr)) or isinstance(b, (str, SymStr)):
             return self.str_equal(a, b, node)
         if isinstance(a, bool) and isinstance(b, bool):
@@ -1097,7 +1103,11 @@ class Interp:
         elif isinstance(cont, (ListV, SetV)):
             items = cont.items
         elif isinstance(cont, DictV):
+            if isinstance(item, (str, int, frozenset, tuple)) and item in cont.items:
+                return True
             items = list(cont.items.keys())
+        elif isinstance(cont, frozenset):
+            items = list(cont)
         elif isinstance(cont, str):
             if isinstance(item, str):
                 return item in cont
